@@ -17,7 +17,7 @@ these programs).  **Oracle** (harness/c19.py): the same comparison on the real `
 describes (`Transform.describesB`, evaluated by the driver for every key of the five libraries: all 656 listed-family keys
 pass) the relational meaning C10 gives a resolved instance is therefore the datasheet function of the values on its pins.
 
-This file: pins and partition.  Props/C19Gates.lean: `family_function_except_adders`.  Props/C19Fun.lean: the full
+This file: cardinality (`cells_count`), pins and partition.  Props/C19Gates.lean: `family_function_except_adders`.  Props/C19Fun.lean: the full
 statement `family_function` (adders included).  Separate modules, so that a defect in the function of one family
 does not hide the theorems about pins, and a defect in the adders does not hide the other families. -/
 namespace KV.C19
@@ -25,6 +25,20 @@ open KV KV.TL KV.DS KV.Sig
 
 /-- all implementation rows of the five libraries -/
 abbrev cells : List Cell := Tech.cells
+
+/-- **Cardinality** (audit 2, F10): the generated table lists, per library (`Gen.libNames` = GSC180, NANGATE, NANGATE_ZN, SAED32,
+SAED90), exactly 38 / 133 / 133 / 189 / 533 keys (1026 in all) on 28 / 49 / 49 / 70 / 67 implementation rows (263), no key twice
+within a library, and no row outside the five libraries — so the `∀ c ∈ cells` theorems below range over exactly that many
+definitions. The numbers are those of the library objects of the tree the table was generated from: the harness compares the
+driver's `techcount` (the same `Tech.libKeys` / `Tech.libRows`) with `len(tlib.cells)` and the number of distinct implementation
+circuits of the five REAL `TechLib` objects, so a dump that silently drops entries fails here (kernel) and there (tie). A
+deliberate change of a library changes these literals. -/
+theorem cells_count :
+    (List.range 5).map (fun l => (Tech.libKeys l).length) = [38, 133, 133, 189, 533] ∧
+    (List.range 5).map (fun l => (Tech.libRows l).length) = [28, 49, 49, 70, 67] ∧
+    (∀ l, l < 5 → (Tech.libKeys l).Nodup) ∧
+    cells.all (fun c => decide (c.lib < 5)) = true ∧
+    (cells.flatMap (·.names)).length = 1026 ∧ cells.length = 263 := by decide +kernel
 
 /-- Every cell lists each pin exactly once; inputs and outputs are numbered 0..n-1 in declaration order; names,
     order and directions agree with the ports of the implementation circuit; and the keys that carry this
